@@ -60,9 +60,7 @@ def run(ctx):
         ctx.count('K-order', key=(k, len(d.records)))
         ctx.stat('K-order', 'records', len(d.records))
         ctx.stat('K-order', 'logical_files', len(d.logical_files()))
-        # D22: a rejected add_origin that was the first call for its ORIGIN set leaves the empty set registered, and its
-        # position decides which origin the library treats as the defining one
-        d22 = 'D22-empty-set-position' if (judge.rejected_first_for_set(prog, r['outs'], only='origin') and r['agree']) else None
+        d22 = None      # D22 (empty set left by a rejected first add_origin) was repaired in /repo (3577635): any recurrence is a violation
         if flavor != 'rewrite-with-origin-changes':
             judge.check_order(ctx, d, det, headers_of(prog, r['outs']), defining_of(prog, r['outs']), defining_finding=d22)
         judge.check_identity_refs(ctx, d, det, check_origins=False, check_unique=False)
